@@ -28,9 +28,11 @@ fn check_invlpg(rep: &mut Report, what: &str, addr: u64, evs: &[Event]) {
 fn check_flush_all(rep: &mut Report, what: &str, prior_cr3: u64, evs: &[Event]) {
     rep.eval();
     let ctx = || J::obj(vec![("cr3", J::hex(prior_cr3)), ("events", evj(evs))]);
+    // reading other control registers is harmless; what counts: exactly one write, to CR3, as the last privileged
+    // instruction, after CR3 was read, and nothing else privileged
     let reads: Vec<&Event> = evs.iter().filter(|e| e.kind == K::MovFromCr).collect();
     let writes: Vec<&Event> = evs.iter().filter(|e| e.kind == K::MovToCr).collect();
-    if evs.len() != reads.len() + writes.len() || writes.len() != 1 || reads.is_empty() || evs.last().map(|e| e.kind) != Some(K::MovToCr) || evs.iter().any(|e| e.n != 3) {
+    if evs.len() != reads.len() + writes.len() || writes.len() != 1 || !reads.iter().any(|e| e.n == 3) || evs.last().map(|e| e.kind) != Some(K::MovToCr) || writes[0].n != 3 {
         rep.violation(&format!("{}|not-a-reload-of-cr3", what), ctx());
     } else if writes[0].val != prior_cr3 {
         let low = (writes[0].val ^ prior_cr3) & 0xfff != 0;
@@ -68,6 +70,7 @@ fn token_tests(rep: &mut Report, r: &mut Rng) {
                 // parent entry change -> flush-all token
                 let cr3 = (gen::phys(r).0 & 0x000f_ffff_ffff_f000) | if r.chance(1, 2) { r.next() & 0xfff } else { r.next() & 0x18 };
                 trapemu::regs().cr[3] = cr3;
+                trapemu::regs().cr[4] = (r.next() & !(1 << 17)) | if cr3 & 0xfe7 != 0 || r.chance(1, 2) { 1 << 17 } else { 0 };
                 if let Ok(tok) = unsafe { m.set_flags_p4_entry(page, fl | PageTableFlags::USER_ACCESSIBLE) } {
                     let tok: MapperFlushAll = tok;
                     let (_, evs) = trapemu::trapped(|| tok.flush_all());
@@ -109,6 +112,8 @@ fn standalone(rep: &mut Report, r: &mut Rng) {
         _ => r.next() & 0xfff,
     };
     trapemu::regs().cr[3] = cr3;
+    // CR4.PCIDE set whenever the low bits hold a PCID, otherwise random
+    trapemu::regs().cr[4] = (r.next() & !(1 << 17)) | if cr3 & 0xfe7 != 0 || r.chance(1, 2) { 1 << 17 } else { 0 };
     let (_, evs) = trapemu::trapped(|| tlb::flush_all());
     check_flush_all(rep, "tlb::flush_all", cr3, &evs);
     if trapemu::regs().cr[3] != cr3 {
@@ -161,6 +166,7 @@ struct Opts {
     global: bool,
     final_only: bool,
     nested: bool,
+    before_pages: bool,
 }
 
 fn invlpgb_case<S: x86_64::structures::paging::page::NotGiantPageSize>(rep: &mut Report, tag: &str, start: u64, npages: u64, max: u16, o: &Opts, cls: &str) {
@@ -177,21 +183,40 @@ fn invlpgb_case<S: x86_64::structures::paging::page::NotGiantPageSize>(rep: &mut
     let e = Page::<S>::containing_address(VirtAddr::new(endaddr));
     let range = PageRange { start: s, end: e };
     let (res, evs) = trapemu::trapped_catch(|| {
-        let mut b = inv.build().pages(range);
-        if let Some(p) = o.pcid {
-            unsafe { b.pcid(Pcid::new(p).unwrap()) };
+        // options may be given before or after the page range
+        if o.before_pages {
+            let mut b = inv.build();
+            if let Some(p) = o.pcid {
+                unsafe { b.pcid(Pcid::new(p).unwrap()) };
+            }
+            if let Some(a) = o.asid {
+                let _ = unsafe { b.asid(a) };
+            }
+            if o.global {
+                b.include_global();
+            }
+            if o.final_only {
+                b.final_translation_only();
+            }
+            let b = if o.nested { b.include_nested_translations() } else { b };
+            b.pages(range).flush();
+        } else {
+            let mut b = inv.build().pages(range);
+            if let Some(p) = o.pcid {
+                unsafe { b.pcid(Pcid::new(p).unwrap()) };
+            }
+            if let Some(a) = o.asid {
+                let _ = unsafe { b.asid(a) };
+            }
+            if o.global {
+                b.include_global();
+            }
+            if o.final_only {
+                b.final_translation_only();
+            }
+            let b = if o.nested { b.include_nested_translations() } else { b };
+            b.flush();
         }
-        if let Some(a) = o.asid {
-            let _ = unsafe { b.asid(a) };
-        }
-        if o.global {
-            b.include_global();
-        }
-        if o.final_only {
-            b.final_translation_only();
-        }
-        let b = if o.nested { b.include_nested_translations() } else { b };
-        b.flush();
     });
     let ctx = |evs: &[Event]| {
         J::obj(vec![("size", J::s(tag)), ("start", J::hex(start)), ("pages", J::U(npages)), ("processor_max", J::U(max as u64)), ("pcid", o.pcid.map(|p| J::U(p as u64)).unwrap_or(J::Null)), ("asid", o.asid.map(|p| J::U(p as u64)).unwrap_or(J::Null)), ("requests", J::U(evs.len() as u64)), ("first_events", evj(evs))])
@@ -271,7 +296,7 @@ fn invlpgb_case<S: x86_64::structures::paging::page::NotGiantPageSize>(rep: &mut
         rep.violation(&format!("InvlpgbFlushBuilder<{}>::flush|pages-of-the-range-not-covered|{}", tag, cls), ctx(&evs));
     }
     rep.count("invlpgb_requests_observed", evs.len() as u64);
-    rep.class(&format!("invlpgb|{}|{}|max={}|pcid={}|asid={}|g={}|f={}|n={}", tag, cls, match max { 0 => "0", 1 => "1", 2..=255 => "small", 65535 => "65535", _ => "big" }, o.pcid.is_some(), o.asid.is_some(), o.global, o.final_only, o.nested));
+    rep.class(&format!("invlpgb|{}|{}|opts-{}|max={}|pcid={}|asid={}|g={}|f={}|n={}", tag, cls, if o.before_pages { "before" } else { "after" }, match max { 0 => "0", 1 => "1", 2..=255 => "small", 65535 => "65535", _ => "big" }, o.pcid.is_some(), o.asid.is_some(), o.global, o.final_only, o.nested));
     if rep.want_sample() && !evs.is_empty() {
         rep.sample(ctx(&evs));
     }
@@ -286,6 +311,7 @@ fn invlpgb_tests(rep: &mut Report, r: &mut Rng) {
         global: r.chance(1, 2),
         final_only: r.chance(1, 2),
         nested: r.chance(1, 3),
+        before_pages: r.chance(1, 2),
     };
     let two_m = r.chance(1, 3);
     let size: u64 = if two_m { 0x20_0000 } else { 0x1000 };
